@@ -48,7 +48,7 @@ mod axv_eval {
     fn lit(v: DataType) -> Box<BoundExpression> { Box::new(BoundExpression::Literal { value: v }) }
     fn any_int() -> DataType { DataType::Int(Int32(kani::any())) }
 
-    //@ob [C05:and.kleene] level=proved text="AND over {TRUE,FALSE,NULL}^2 equals Kleene conjunction (9 cases, symbolic)"
+    //@ob [C05:and.kleene] level=proved tier=thorough text="AND over {TRUE,FALSE,NULL}^2 equals Kleene conjunction (9 cases, symbolic)"
     #[kani::proof]
     #[kani::stub(std::hash::RandomState::new, fixed_state)]
     #[kani::unwind(4)]
@@ -65,7 +65,7 @@ mod axv_eval {
         }
     }
 
-    //@ob [C05:or.kleene] level=proved text="OR over {TRUE,FALSE,NULL}^2 equals Kleene disjunction"
+    //@ob [C05:or.kleene] level=proved tier=thorough text="OR over {TRUE,FALSE,NULL}^2 equals Kleene disjunction"
     #[kani::proof]
     #[kani::stub(std::hash::RandomState::new, fixed_state)]
     #[kani::unwind(4)]
@@ -97,47 +97,6 @@ mod axv_eval {
             Err(_) => assert!(false),
         }
     }
-
-    macro_rules! null_prop {
-        ($name:ident, $op:expr) => {
-            #[kani::proof]
-            #[kani::stub(std::hash::RandomState::new, fixed_state)]
-            #[kani::unwind(4)]
-            fn $name() {
-                let row = Row::new_empty();
-                let schema = empty_schema();
-                let ev = ExpressionEvaluator::new(&row, &schema);
-                let other = if kani::any() { any_int() } else { DataType::Null };
-                let (l, r) = if kani::any() { (DataType::Null, other) } else { (other, DataType::Null) };
-                match ev.eval_binary_op(vec![l], vec![r], $op, None) {
-                    Ok(v) => assert!(v.len() == 1 && matches!(v[0], DataType::Null)),
-                    Err(_) => assert!(false),
-                }
-            }
-        };
-    }
-    //@ob [C05:null.propagates.eq] level=proved tier=thorough harness=null_prop_eq text="Eq with a NULL operand on either side yields NULL"
-    null_prop!(null_prop_eq, BinaryOperator::Eq);
-    //@ob [C05:null.propagates.neq] level=proved tier=thorough harness=null_prop_neq text="Neq with a NULL operand on either side yields NULL"
-    null_prop!(null_prop_neq, BinaryOperator::Neq);
-    //@ob [C05:null.propagates.lt] level=proved tier=thorough harness=null_prop_lt text="Lt with a NULL operand on either side yields NULL"
-    null_prop!(null_prop_lt, BinaryOperator::Lt);
-    //@ob [C05:null.propagates.le] level=proved tier=thorough harness=null_prop_le text="Le with a NULL operand on either side yields NULL"
-    null_prop!(null_prop_le, BinaryOperator::Le);
-    //@ob [C05:null.propagates.gt] level=proved tier=thorough harness=null_prop_gt text="Gt with a NULL operand on either side yields NULL"
-    null_prop!(null_prop_gt, BinaryOperator::Gt);
-    //@ob [C05:null.propagates.ge] level=proved tier=thorough harness=null_prop_ge text="Ge with a NULL operand on either side yields NULL"
-    null_prop!(null_prop_ge, BinaryOperator::Ge);
-    //@ob [C05:null.propagates.plus] level=proved tier=thorough harness=null_prop_plus text="Plus with a NULL operand on either side yields NULL"
-    null_prop!(null_prop_plus, BinaryOperator::Plus);
-    //@ob [C05:null.propagates.minus] level=proved tier=thorough harness=null_prop_minus text="Minus with a NULL operand on either side yields NULL"
-    null_prop!(null_prop_minus, BinaryOperator::Minus);
-    //@ob [C05:null.propagates.mul] level=proved tier=thorough harness=null_prop_mul text="Multiply with a NULL operand on either side yields NULL"
-    null_prop!(null_prop_mul, BinaryOperator::Multiply);
-    //@ob [C05:null.propagates.div] level=proved tier=thorough harness=null_prop_div text="Divide with a NULL operand on either side yields NULL"
-    null_prop!(null_prop_div, BinaryOperator::Divide);
-    //@ob [C05:null.propagates.mod] level=proved tier=thorough harness=null_prop_mod text="Modulo with a NULL operand on either side yields NULL"
-    null_prop!(null_prop_mod, BinaryOperator::Modulo);
 
     macro_rules! cmp_int {
         ($name:ident, $op:expr, $f:expr) => {
@@ -190,29 +149,6 @@ mod axv_eval {
             Ok(DataType::Int(r)) => assert!(r.0 as i64 == -(y as i64)),
             Ok(_) => assert!(false),
             Err(_) => assert!(y == i32::MIN),
-        }
-    }
-
-    //@ob [C05:as_bool.semantics] level=proved tier=thorough text="boolean context: TRUE -> true, FALSE -> false, NULL -> false, anything else is an error"
-    #[kani::proof]
-    #[kani::stub(std::hash::RandomState::new, fixed_state)]
-    #[kani::stub(<Concat as Callable>::call, cut_call)]
-    #[kani::stub(<LTrim as Callable>::call, cut_call)]
-    #[kani::stub(<RTrim as Callable>::call, cut_call)]
-    #[kani::stub(<Lower as Callable>::call, cut_call)]
-    #[kani::stub(<Upper as Callable>::call, cut_call)]
-    #[kani::stub(ExpressionEvaluator::string_concat, Cut::cut_str2)]
-    #[kani::stub(ExpressionEvaluator::string_like, Cut::cut_like)]
-    #[kani::unwind(4)]
-    fn as_bool_semantics() {
-        let row = Row::new_empty();
-        let schema = empty_schema();
-        let ev = ExpressionEvaluator::new(&row, &schema);
-        let v = if kani::any() { tri() } else { any_int() };
-        let want = match &v { DataType::Bool(Bool(b)) => Some(*b), DataType::Null => Some(false), _ => None };
-        match ev.evaluate_as_bool(&BoundExpression::Literal { value: v }) {
-            Ok(b) => assert!(want == Some(b)),
-            Err(_) => assert!(want.is_none()),
         }
     }
 
